@@ -2,6 +2,7 @@ package main
 
 import (
 	"bytes"
+	"regexp"
 	"encoding/json"
 	"fmt"
 	"os"
@@ -11,6 +12,7 @@ import (
 	"sync"
 
 	"github.com/maruel/panicparse/v2/stack"
+	"github.com/maruel/panicparse/v2/verifhook"
 
 	"verifharness/core"
 	"verifharness/gen"
@@ -23,7 +25,7 @@ func init() {
 
 type c14Case struct {
 	Dump *gen.Dump `json:"dump"`
-	Ops  []int     `json:"ops"` // 0..3 Aggregate(level), 4 Aggregated.ToHTML, 5 Snapshot.ToHTML
+	Ops  []int     `json:"ops"` // 0..3 Aggregate(level), 4 Aggregated.ToHTML, 5 Snapshot.ToHTML, 6..9 pp's console rendering
 }
 
 func mergeDump(rr *core.Rand) *gen.Dump {
@@ -42,14 +44,27 @@ func mergeDump(rr *core.Rand) *gen.Dump {
 	return d
 }
 
+// textFilter matches the header of some goroutines/buckets of a mergeDump (states are select / chan receive).
+var textFilter = regexp.MustCompile(`select`)
+
 func applyOp(s *stack.Snapshot, op int) {
 	switch {
 	case op < 4:
 		_ = s.Aggregate(allLevels[op])
 	case op == 4:
 		_ = s.Aggregate(stack.AnyValue).ToHTML(&bytes.Buffer{}, "")
-	default:
+	case op == 5:
 		_ = s.ToHTML(&bytes.Buffer{}, "")
+	case op == 6:
+		// pp's console rendering of buckets and of single goroutines (what it prints for a race report), through
+		// the verif hook, with -f / -m expressions that hide some entries and keep later ones
+		_ = verifhook.WriteBuckets(&bytes.Buffer{}, false, s.Aggregate(stack.AnyPointer), 2, nil, nil)
+	case op == 7:
+		_ = verifhook.WriteBuckets(&bytes.Buffer{}, true, s.Aggregate(stack.AnyValue), 0, textFilter, nil)
+	case op == 8:
+		_ = verifhook.WriteGoroutines(&bytes.Buffer{}, false, s, 1, textFilter, nil)
+	default:
+		_ = verifhook.WriteGoroutines(&bytes.Buffer{}, true, s, 2, nil, textFilter)
 	}
 }
 
@@ -83,6 +98,7 @@ type seqExpect struct {
 	aggs  [4]*stack.Aggregated
 	html  []byte
 	html2 []byte
+	text  [2][]byte // console rendering of the goroutines (filtered) and of the AnyPointer aggregation
 }
 
 var raceCanaryCounter int
@@ -178,6 +194,19 @@ func concurrentPhase(r *core.Run, procs, nworkers, opsPer int, exp []*seqExpect,
 					if !bytes.Equal(maskHTML(b.Bytes()), e.html2) {
 						msg = "concurrent Snapshot.ToHTML differs from the sequential one"
 					}
+				case op == 7 && k%4 == 0:
+					var b bytes.Buffer
+					if rr.Bool() {
+						_ = verifhook.WriteGoroutines(&b, false, e.snap, 2, textFilter, nil)
+						if !bytes.Equal(b.Bytes(), e.text[0]) {
+							msg = "concurrent console rendering of the goroutines of a shared snapshot differs from the sequential one"
+						}
+					} else {
+						_ = verifhook.WriteBuckets(&b, false, e.aggs[2], 2, nil, nil)
+						if !bytes.Equal(b.Bytes(), e.text[1]) {
+							msg = "concurrent console rendering of a shared aggregation differs from the sequential one"
+						}
+					}
 				default:
 					_ = e.snap.IsRace()
 				}
@@ -198,7 +227,7 @@ func concurrentPhase(r *core.Run, procs, nworkers, opsPer int, exp []*seqExpect,
 }
 
 func runC14(r *core.Run) {
-	r.Rule("(0) cold start: the first calls into the library in this process are 16 concurrent aggregations and renderings of private snapshots with frames of every location class, compared afterwards with the same renderings done alone; (a) immutability: every generated dump (few frame shapes + small pointer pools so that merges happen) is parsed twice; a random sequence of Aggregate(level)/ToHTML calls runs on copy 1 only; after every call copy 1 must deep-equal its pristine twin and aggregating both must agree; G-SNAP multisets likewise. " +
+	r.Rule("(0) cold start: the first calls into the library in this process are 16 concurrent aggregations and renderings of private snapshots with frames of every location class, compared afterwards with the same renderings done alone; (a) immutability: every generated dump (few frame shapes + small pointer pools so that merges happen) is parsed twice; a random sequence of Aggregate(level) / ToHTML / pp console rendering (through the verif hook, with -f/-m expressions) calls runs on copy 1 only; after every call copy 1 must deep-equal its pristine twin and aggregating both must agree; G-SNAP multisets likewise. " +
 		"(b) concurrency under the Go race detector (this binary is built with -race): N goroutines scan, aggregate (4 levels) and render SHARED snapshots with a SHARED *Opts at GOMAXPROCS 2/4/16, each result compared with the precomputed sequential result; (c) rounds of W scans started together with path guessing and source analysis on, over freshly written source files, each compared with the same scan run alone afterwards; race reports are read from the detector's log, a deliberately racy canary must be among them. " +
 		"distinct by hash(input, ops); non-trivial = the aggregation at AnyPointer merges >= 2 goroutines")
 	r.Assume("GORACE=halt_on_error=0 log_path=<work>/race is set by ./check; a missing canary report makes the run BROKEN")
@@ -208,9 +237,9 @@ func runC14(r *core.Run) {
 		rr := core.NewRand(r.Seed, 141, uint64(i))
 		c := &c14Case{Dump: mergeDump(rr)}
 		for k := 1 + rr.Intn(6); k > 0; k-- {
-			op := rr.Intn(6)
-			if op >= 4 && i%6 != 0 {
-				op = rr.Intn(4)
+			op := rr.Intn(10)
+			if (op == 4 || op == 5) && i%6 != 0 {
+				op = rr.Intn(4) // HTML rendering is slow: one case in six
 			}
 			c.Ops = append(c.Ops, op)
 		}
@@ -257,6 +286,12 @@ func runC14(r *core.Run) {
 		b = bytes.Buffer{}
 		_ = e.snap.ToHTML(&b, "")
 		e.html2 = maskHTML(b.Bytes())
+		b = bytes.Buffer{}
+		_ = verifhook.WriteGoroutines(&b, false, e.snap, 2, textFilter, nil)
+		e.text[0] = append([]byte{}, b.Bytes()...)
+		b = bytes.Buffer{}
+		_ = verifhook.WriteBuckets(&b, false, e.aggs[2], 2, nil, nil)
+		e.text[1] = append([]byte{}, b.Bytes()...)
 		exp = append(exp, e)
 	}
 	shared := namingOpts()
